@@ -21,6 +21,9 @@ def prose(r, lo=1, hi=6, punct=True, rich=True):
     ws = [r.choice(WORDS) for _ in range(r.randint(lo, hi))]
     if rich and r.random() < 0.12:
         ws.insert(r.randint(0, len(ws)), r.choice(["default", "by default", "the default mode", "Default"]))
+    if rich and r.random() < 0.05:
+        # characters whose case-folded form is LONGER than they are (ß -> ss, the fi ligature, dotted capital I)
+        ws.insert(r.randint(0, len(ws)), r.choice(["Größe", "Straße", "con\ufb01g", "\u0130stanbul"]))
     if rich and r.random() < 0.1:
         # commas that are not followed by exactly one blank
         ws.insert(r.randint(0, len(ws)), r.choice(["10,000", "(x,y)", "0,5", "a,  b"]))
